@@ -243,6 +243,9 @@ impl Lexer {
                 "desc" => Some(Lexem::DescendingOrder),
                 "limit" => Some(Lexem::Limit),
                 "into" => Some(Lexem::Into),
+                // between FROM and WHERE there are only search roots and their options: there the
+                // words name the `regexp` root option (synonym `rx`), not the operator
+                "regexp" | "rx" if !self.before_from && !self.after_where => Some(Lexem::RawString(s)),
                 "eq" | "ne" | "eeq" | "ene" | "gt" | "lt" | "ge" | "le" | "gte" | "lte" | "regexp"
                 | "rx" | "notrx" | "like" | "notlike" | "between" => Some(Lexem::Operator(s)),
                 "mul" | "div" | "mod" | "plus" | "minus" => Some(Lexem::ArithmeticOperator(s)),
